@@ -40,7 +40,9 @@ pub fn gen(rng: &mut Rng, tiny: bool, focus: &str) -> ACfg {
         _ => rng.below(3) as u8,
     };
     let cap = *rng.pick(&[1usize, 2, 3, 5, 16]);
-    let n_red = rng.range(1, 4) as u32;
+    // one store in ten has no reducer at all (without_reducer): actions still run the middleware and
+    // notification phases
+    let n_red = if rng.chance(1, 10) { 0 } else { rng.range(1, 4) as u32 };
     let n_mw = rng.below(3) as u32;
     let n_sub = rng.below(4) as u32;
     let n_prod = if tiny { rng.range(1, 3) } else { rng.range(1, 6) } as usize;
@@ -66,7 +68,7 @@ pub fn gen(rng: &mut Rng, tiny: bool, focus: &str) -> ACfg {
                 }
             }
             _ => {
-                let r = rng.below(n_red as u64) as usize;
+                let r = rng.below(n_red.max(1) as u64) as usize;
                 sc.eff[r] = Some(EffSpec { kind: if rng.chance(1, 2) { EK_TASK } else { EK_FUNC }, follow_script: 0, n_follow: 0, panic: rng.chance(1, 6), gate: NOGATE });
             }
         }
